@@ -204,7 +204,85 @@ def _check_in_dir(ctx, case, ref, ref_prog):
                 return
 
 
+# -- the command line path: nslc.py per module, nslr.py run on the root module ---------------------------
+
+def cli_worker_factory(R, n_cases):
+    import re
+    import subprocess
+    import sys
+
+    def worker(k, ctx):
+        from hypothesis import given, seed, settings, HealthCheck, Phase
+        from ..runner import derive_seed
+        from .. import model as M
+        cases = []
+
+        @seed(derive_seed(R.seed, "C16", "cli", k))
+        @settings(max_examples=n_cases * 6, database=None, deadline=None, phases=[Phase.generate],
+                  suppress_health_check=list(HealthCheck))
+        @given(genmod.modules_case())
+        def collect(c):
+            entry = c.prog.funcs[-1]
+            # nslr.py can only pass int / float arguments and cannot set globals
+            if all(M.is_scalar(t) for t, _ in entry.params) and not c.prog.globals and len(cases) < n_cases:
+                cases.append(c)
+
+        collect()
+        env = dict(os.environ, PYTHONPATH=adapter.REPO)
+        for case in cases:
+            ctx.count()
+            single = adapter.compile_src(case.single_source())
+            if not single.ok:
+                ctx.discard("single-module-program-not-accepted")
+                continue
+            ref = run_program(adapter.link([single.ir]), case.entry, case.inputs)
+            work = tempfile.mkdtemp(prefix="c16cli_")
+            try:
+                failed = False
+                for i, m in enumerate(case.modules):
+                    with open(os.path.join(work, m["name"] + ".nsl"), "w") as fh:
+                        fh.write(case.module_source(i))
+                    p = subprocess.run([sys.executable, os.path.join(adapter.REPO, "nslc.py"), "-o", m["name"] + ".nslir",
+                                        m["name"] + ".nsl"], cwd=work, env=env, capture_output=True, text=True, timeout=300)
+                    if p.returncode != 0 or not os.path.exists(os.path.join(work, m["name"] + ".nslir")):
+                        ctx.fail("cli|nslc-fails", "nslc.py fails on module %s (exit %d): %s\n%s" % (
+                            m["name"], p.returncode, (p.stdout + p.stderr)[-500:], case.show()), case)
+                        failed = True
+                        break
+                if failed:
+                    return
+                entry = case.prog.funcs[-1]
+                for (args, gl), r in zip(case.inputs, ref):
+                    if r[0] != "ok":
+                        continue
+                    argv = [repr(args[n]) for _, n in entry.params]
+                    p = subprocess.run([sys.executable, os.path.join(adapter.REPO, "nslr.py"), "run", case.modules[-1]["name"] + ".nslir",
+                                        case.entry] + argv, cwd=work, env=env, capture_output=True, text=True, timeout=300)
+                    mt = re.search(r"=\s*(\S+)\s*$", p.stdout.strip().splitlines()[-1]) if p.stdout.strip() else None
+                    if p.returncode != 0 or not mt:
+                        ctx.fail("cli|nslr-fails", "nslr.py run fails (exit %d) where the single-module program returns %r: %s\n%s" % (
+                            p.returncode, r[1], (p.stdout + p.stderr)[-500:], case.show()), case)
+                        return
+                    try:
+                        got = float(mt.group(1))
+                    except ValueError:
+                        got = None
+                    ctx.nontrivial((case.show(), repr(args)))
+                    ctx.label("cli-run")
+                    if got is None or not exact(float(r[1]), got):
+                        ctx.fail("cli|different-value", "nslr.py prints %r, the single-module program returns %r for %r\n%s" % (
+                            mt.group(1), r[1], args, case.show()), case)
+                        return
+            finally:
+                shutil.rmtree(work, ignore_errors=True)
+        if ctx.want_sample() and cases:
+            ctx.sample({"cli_cases": len(cases), "first": cases[0].show()[:800]})
+    return worker
+
+
 def run(R):
+    R.custom("command-line", cli_worker_factory(R, R.pick(2, 25)), nworkers=16)
+    R.require("cli-run")
     R.hyp("partitions", genmod.modules_case(), check, examples=R.pick(40, 800), shrink="hyp")
     for l in ("root-only-linked", "overload-set-split-over-modules", "struct-type-shared-across-modules", "shape:diamond", "shape:chain3", "import-not-first", "duplicate-definition-checked"):
         R.require(l)
